@@ -67,6 +67,8 @@ package fft
 //@ modifies buf
 //@ end
 
+// (added) a domain read with the precompute flag set has its four tables rebuilt from the values just decoded, whatever
+// the receiver held before: tables left over from an earlier use of the receiver belong to another shift.
 //@ func Domain.ReadFrom
 //@ option opaque-calls
 //@ option opaque-writes Read:2
@@ -83,6 +85,11 @@ package fft
 //@ + invariant[whole-buffers-so-far] !short
 //@ cut before call Element #*
 //@ + invariant[decoded-from-a-full-buffer] !short
+//@ ghost tables = false
+//@ cut after call preComputeTwiddles #1
+//@ + optional
+//@ + ghost tables = true
 //@ ensures[whole-buffers] isnil(result1) ==> !short
+//@ ensures[tables-rebuilt] isnil(result1) && d.withPrecompute ==> tables
 //@ modifies d
 //@ end
